@@ -12,6 +12,7 @@
 //! `.wat` is preferred over `.wasm`; the extension is APPENDED (never replaces a version's last component); an override
 //! applies to unversioned references only and must exist; a missing package is skipped or reported as unknown; the
 //! bytes are exactly the file's component bytes (or the encoding of the WAT / WIT found).
+//! Then every present / missing pattern of THREE keys in one call, in both modes (each key is looked up on its own).
 //! Exit 0 = agreement on every combination, 1 = a disagreeing combination is printed.
 use indexmap::IndexMap;
 use miette::SourceSpan;
@@ -92,6 +93,41 @@ fn main() {
             let _ = ki;
         } } } } }
     }
+    // ---- several keys in ONE call: each key is looked up on its own - a missing package is skipped (or reported) without
+    //      affecting the keys after it.  Every present / missing pattern of three keys, in both modes.
+    let mk = [("a:b", None), ("x:y", Some("1.2.3")), ("p:q:r", None)];
+    for mask in 0u32..8 { for err_unknown in [false, true] {
+        combos += 1;
+        let deps = root.join(format!("multi{mask}{err_unknown}")).join("deps");
+        let versions: Vec<Option<semver::Version>> = mk.iter().map(|(_, v)| v.map(|v| semver::Version::parse(v).unwrap())).collect();
+        let mut ks: IndexMap<BorrowedPackageKey, SourceSpan> = IndexMap::new();
+        for (i, (name, ver)) in mk.iter().enumerate() {
+            let mut base = deps.clone();
+            for seg in name.split(':') { base.push(seg); }
+            if let Some(v) = ver { base.push(v); }
+            fs::create_dir_all(base.parent().unwrap()).unwrap();
+            if mask & (1 << i) != 0 { let mut f = base.into_os_string(); f.push(".wasm"); fs::write(PathBuf::from(f), wat::parse_str(&format!("(component (import \"key{i}\" (func)))")).unwrap()).unwrap(); }
+            ks.insert(BorrowedPackageKey::from_name_and_version(name, versions[i].as_ref()), SourceSpan::new(i.into(), 1));
+        }
+        let resolver = FileSystemPackageResolver::new(&deps, HashMap::new(), err_unknown);
+        let got = resolver.resolve(&ks);
+        let first_missing = (0..3).find(|i| mask & (1 << i) == 0);
+        let describe = format!("keys {:?} present {:?}, unknown-is-error {err_unknown}", mk.iter().map(|(n, v)| format!("{n}{}", v.map(|v| format!("@{v}")).unwrap_or_default())).collect::<Vec<_>>(), (0..3).map(|i| mask & (1 << i) != 0).collect::<Vec<_>>());
+        match (got, err_unknown && first_missing.is_some()) {
+            // which of several missing packages is reported is not constrained; it must be a missing one
+            (Err(Error::UnknownPackage { span, .. }), true) => { if span.offset() > 2 || mask & (1 << span.offset()) != 0 { println!("C18-BOUNDED VIOLATION: {describe}: the unknown package reported is key #{}, which is present", span.offset()); std::process::exit(1); } }
+            (Ok(m), false) => {
+                for i in 0..3 {
+                    let key = ks.get_index(i).unwrap().0;
+                    let want = mask & (1 << i) != 0;
+                    let have = m.get(key).map(|b| String::from_utf8_lossy(b).contains(&format!("key{i}")));
+                    if have != if want { Some(true) } else { None } { println!("C18-BOUNDED VIOLATION: {describe}: key #{i} {} in the result", match have { None => "is missing", Some(false) => "has another key's bytes", Some(true) => "is present although its file does not exist" }); std::process::exit(1); }
+                }
+                if mask != 0 && mask != 7 { nontrivial += 1; }
+            }
+            (other, _) => { println!("C18-BOUNDED VIOLATION: {describe}: the resolver returned {:?}", other.map(|m| m.len()).map_err(|e| e.to_string())); std::process::exit(1); }
+        }
+    } }
     let _ = fs::remove_dir_all(&root);
     println!("C18-FS ok {{\"bounded\": true, \"exhaustive\": true, \"evaluations\": {combos}, \"distinct_nontrivial\": {nontrivial}, \"samples\": {:?}}}", samples);
 }
